@@ -155,6 +155,36 @@ RAISED = {"kind": "raised", "exact": True, "shape": [], "re": [], "im": [], "dty
 
 
 # ----------------------------------------------------------------------------- one call
+ONE_SHOT = ("iter", "gen", "map", "reversed")
+
+
+def mode_iterable(form, values, I):
+    """cfg.mf: the iterable that carries a sequence of modes (values as spelled, entries of the cfg.ity type)."""
+    vals = [I(v) for v in values]
+    if form == "list":
+        return vals
+    if form == "tuple":
+        return tuple(vals)
+    if form == "array":
+        return np.array(values, dtype=np.int64 if I is int else I)
+    if form == "dictkeys":
+        return dict.fromkeys(vals).keys()
+    if form == "iter":
+        return iter(vals)
+    if form == "gen":
+        return (v for v in vals)
+    if form == "map":
+        return map(I, values)
+    if form == "reversed":
+        return reversed(vals[::-1])
+    if form == "range":                      # only for arithmetic progressions (ModeForms); entries are Python ints
+        if len(values) == 0:
+            return range(0)
+        step = values[1] - values[0] if len(values) > 1 else 1
+        return range(values[0], values[0] + step * len(values), step)
+    raise ValueError(form)
+
+
 def bind(c, ts, w, mask, idx, rs):
     """(function, positional args, keyword args) of the call a configuration prescribes.  The argument OBJECTS
     (containers, arrays) are built once; execute() calls the function cfg.rep times on the very same objects."""
@@ -163,10 +193,11 @@ def bind(c, ts, w, mask, idx, rs):
     I = INT_FORMS[c["ity"]]                  # how integer-like arguments are passed
     C = CONTAINERS[c["ct"]]                  # how operand lists are passed
     none = lambda v: None if v < 0 else I(v)
+    M = lambda values: mode_iterable(c["mf"], list(values), I)
     if op == "mode_dot":
         return tenalg.mode_dot, (ts[0], ts[1], I(c["mode"])), dict(transpose=c["tr"])
     if op == "multi_mode_dot":
-        return tenalg.multi_mode_dot, (ts[0], C(ts[1:])), dict(modes=[I(m) for m in c["modes"]] if c["given"] else None,
+        return tenalg.multi_mode_dot, (ts[0], C(ts[1:])), dict(modes=M(c["modes"]) if c["given"] else None,
                                                               skip=none(c["skip"]), transpose=c["tr"])
     if op == "kronecker":
         return tenalg.kronecker, (C(ts),), dict(skip_matrix=none(c["skip"]), reverse=c["reverse"])
@@ -181,8 +212,8 @@ def bind(c, ts, w, mask, idx, rs):
     if op == "tensordot":
         # the configuration carries the mode numbers AS SPELLED (negative = counted from the end, cfg.neg
         # says which arguments); the specification normalises them
-        modes = I(len(c["m1"])) if c["mint"] else ([I(m) for m in c["m1"]], [I(m) for m in c["m2"]])
-        batched = I(c["b1"][0]) if c["bint"] else ([I(m) for m in c["b1"]], [I(m) for m in c["b2"]])
+        modes = I(len(c["m1"])) if c["mint"] else (M(c["m1"]), M(c["m2"]))
+        batched = I(c["b1"][0]) if c["bint"] else (M(c["b1"]), M(c["b2"]))
         return tenalg.tensordot, (ts[0], ts[1], modes), dict(batched_modes=batched)
     if op == "mttkrp":
         if c["variant"] == "memory":
@@ -246,7 +277,14 @@ def execute(case):
             f, args, kwargs = bind(c, ts, w, mask, idx, rs)
         except Exception as ex:
             return {"id": case["id"], "harness_error": "bind: %s: %s" % (type(ex).__name__, ex)}
-        for _ in range(c["rep"]):                # the SAME argument objects for every call
+        for call_no in range(c["rep"]):          # the SAME argument objects for every call
+            if call_no and c["mf"] in ONE_SHOT:  # ... except a one-shot iterator, which is legitimately used up:
+                _, args2, kwargs2 = bind(c, ts, w, mask, idx, rs)       # take only the fresh mode iterables
+                if op == "multi_mode_dot":
+                    kwargs = dict(kwargs, modes=kwargs2["modes"])
+                elif op == "tensordot":
+                    args = args[:2] + (args2[2],)
+                    kwargs = dict(kwargs, batched_modes=kwargs2["batched_modes"])
             try:
                 res = f(*args, **kwargs)
                 if op == "sampled_kr":
@@ -343,6 +381,8 @@ def run(chk, opts):
         "the configurations by the specification, one combination per configuration; excluded because the unchanged tree fails on them "
         "and the docstrings do not promise them: tensordot(modes=k / batched_modes=k) with k a NumPy integer (TypeError in both backends), "
         "einsum khatri_rao(tuple, weights=w) without skip_matrix (TypeError)",
+        "cfg.mf: sequences of modes (multi_mode_dot modes, tensordot mode lists) are passed as list / tuple / ndarray / dict keys / range / "
+        "one-shot iterators (iter, generator, map, reversed)",
         "cfg.rep: the call is repeated 1-3 times on the same argument objects and every call must return the documented value; "
         "cfg.me: the first operand is scaled by 2^-600 / 2^500 (moments 2^-300 / 2^300), divided out exactly; sampled Khatri-Rao: caller-supplied "
         "indices as list / int16 / int32 / int64 and row-count products up to 2*10^5 (row numbers beyond int16; beyond int32 is outside TLC's integers)",
